@@ -84,6 +84,10 @@ def gen_case(rng):
     elif what == 'take_axis':
         c["ps"] = [rng.randrange(n) for _ in range(rng.randint(1, 5))]
         c["position"] = rng.random() < 0.5
+        if c["position"] and rng.random() < 0.35:
+            # NumPy's out-of-range modes, with negative and too-large positions: data and labels follow the same convention (NumPy's)
+            c["mode"] = rng.choice(['clip', 'wrap'])
+            c["ps"] = [rng.randrange(-n - 2, n + 3) for _ in range(rng.randint(1, 5))]
     elif what == 'compress':
         c["mask"] = np.array([rng.random() < 0.5 for _ in range(n)], dtype=bool)
         c["aslist"] = rng.random() < 0.3
@@ -153,7 +157,13 @@ def check(case, ctx):
         common.expect(ctx, ID, "sortkey", label, res, exc, exp=moved(order))
     elif what == 'take_axis':
         ps = case["ps"]
-        if case["position"]:
+        if case["position"] and case.get("mode"):
+            md = case["mode"]
+            label = "a.take_axis(%r, axis=%r, indexing='position', mode=%r)" % (ps, axis, md) + base
+            fn = lambda raw=list(ps): a.take_axis(raw, axis=axis, indexing='position', mode=md)
+            ps = np.take(np.arange(n), ps, mode=md).tolist()
+            ctx.outcomes['take_axis-mode-' + md] += 1
+        elif case["position"]:
             label = "a.take_axis(%r, axis=%r, indexing='position')" % (ps, axis) + base
             fn = lambda: a.take_axis(ps, axis=axis, indexing='position')
         else:
